@@ -267,3 +267,15 @@ package server
 //@ func (t *Teamserver) FindSystemPackages() (ok bool)
 //@   requires nonnil: t != nil && t.Profile != nil
 //@   modifies *
+
+// C01: a request whose magic value is not the Demon's is asked about here - on every listener, from
+// anybody, whether or not the profile configures a Service (t.Service is nil without one).
+//@ func (t *Teamserver) ServiceAgentExist(MagicValue int) (r bool)
+//@   requires nonnil: t != nil
+//@   requires entries: t.Service != nil ==> forall(i, 0, len(t.Service.Agents), t.Service.Agents[i] != nil)
+//@   ensures noservice: t.Service == nil ==> !r
+//@   loop "for _, agentService := range t.Service.Agents"
+//@     invariant none: true
+//@ func (t *Teamserver) ServiceAgent(MagicValue int) (r agent.ServiceAgentInterface)
+//@   requires nonnil: t != nil
+//@   requires entries: t.Service != nil ==> forall(i, 0, len(t.Service.Agents), t.Service.Agents[i] != nil)
